@@ -9,156 +9,8 @@ from exec import Inconclusive, State
 from values import *
 from framework import mval
 
-SEND = 'ActorProperties::send_message_unchecked::<TMessage>'
-DRAIN = 'ActorProperties::drain'
-
-
-def build_threads(prog, n_senders, n_msgs, n_drainers, loop_bound, status0=2):
-    """returns (trees, meta): meta[t] = dict(kind, idents)"""
-    trees = []
-    meta = []
-    tid = 0
-    interps = []
-    for i in range(n_senders):
-        I = mb.new_interp(prog, loop_bound)
-        pv = mb.props_value(prog, I)
-        idents = [mb.msg_ident(i, j) for j in range(n_msgs)]
-
-        def mkprog(j):
-            def program(I, st, pv=pv, idents=idents):
-                cell = st.alloc(pv)
-                return mb.run_calls(I, st, [('send%d' % j, SEND, (lambda s: [Ref(cell, ()), Opaque('msg', ident=idents[j])]))], call_base=j)
-            return program
-
-        def summarize(s, kind, results, seg, idents=idents):
-            return {'kind': kind, 'send': mb.classify_send(results[0], idents[seg]) if kind == 'ret' else None}
-        tr = conc.unfold(I, 'sender%d' % i, tid, State, [mkprog(j) for j in range(n_msgs)], summarize)
-        trees.append(tr)
-        meta.append({'kind': 'sender', 'idents': idents})
-        interps.append(I)
-        tid += 1
-    for d in range(n_drainers):
-        I = mb.new_interp(prog, loop_bound)
-        pv = mb.props_value(prog, I)
-
-        def program(I, st, pv=pv):
-            cell = st.alloc(pv)
-            return mb.run_calls(I, st, [('drain', DRAIN, lambda s: [Ref(cell, ())])])
-
-        def summarize(s, kind, results, seg):
-            r = results[0] if results else None
-            return {'kind': kind, 'drain_ok': isinstance(r, Enum) and r.variant == 'Ok'}
-        tr = conc.unfold(I, 'drainer%d' % d, tid, State, program, summarize)
-        trees.append(tr)
-        meta.append({'kind': 'drainer'})
-        interps.append(I)
-        tid += 1
-    return trees, meta, interps
-
-
-def oracle(bmc, trees, meta):
-    """returns (premise, dict name -> claim)"""
-    T = len(trees)
-    claims = {}
-    all_leaf = z3.And([bmc.finished(t, ('ret', 'unwind', 'abort')) for t in range(T)])
-    claims['no_thread_panics'] = z3.And([bmc.finished(t, ('ret',)) for t in range(T)])
-    marker_nodes = mb.send_events(trees, mb.MARKER)
-    marker_sent = [z3.And(bmc.executed[n], n.event.res['ok']) for n in marker_nodes]
-    n_markers = mb.count_true(marker_sent)
-    has_drainer = any(m['kind'] == 'drainer' for m in meta)
-    if has_drainer:
-        claims['exactly_one_marker'] = n_markers == 1
-    marker_pos = z3.BitVecVal(255, 8)
-    for n, c in zip(marker_nodes, marker_sent):
-        marker_pos = z3.If(c, n.event.res['apos'], marker_pos)
-    q = bmc.final_state('msgq')
-    claims['queue_model_not_overflowed'] = z3.And([z3.Not(z3.And(bmc.executed[n], n.event.res['overflow'])) for tr in trees for n in tr.event_nodes() if n.event.opname == 'send'] or [z3.BoolVal(True)])
-    claims['status_at_least_draining'] = z3.UGE(bmc.final_state('status')['w'], 4) if has_drainer else z3.BoolVal(True)
-    drain_last = []
-    for t, m in enumerate(meta):
-        if m['kind'] == 'drainer':
-            drain_last.append(mb.pick_time(bmc, mb.last_event_nodes(trees[t], 0), 0))
-    for t, m in enumerate(meta):
-        if m['kind'] != 'sender':
-            continue
-        prev_pos = None
-        prev_ok = None
-        for j, ident in enumerate(m['idents']):
-            ret = bmc.leaf_select(t, lambda leaf: z3.BitVecVal(leaf.data['send'], 4), z3.BitVecVal(15, 4), seg=j)
-            evs = mb.send_events(trees, ident)
-            enq = [z3.And(bmc.executed[n], n.event.res['ok']) for n in evs]
-            cnt = mb.count_true(enq)
-            apos = z3.BitVecVal(254, 8)
-            for n, c in zip(evs, enq):
-                apos = z3.If(c, n.event.res['apos'], apos)
-            nm = 't%d.m%d' % (t, j)
-            claims[nm + '.ok_implies_enqueued_once_before_marker'] = z3.Implies(ret == 0, z3.And(cnt == 1, z3.ULT(apos, marker_pos) if has_drainer else z3.BoolVal(True)))
-            claims[nm + '.err_returns_own_message_unqueued'] = z3.Implies(ret != 0, z3.And(ret == 1, cnt == 0))
-            first = mb.pick_time(bmc, mb.first_event_nodes(trees[t], j), 0)
-            for k, dl in enumerate(drain_last):
-                claims[nm + '.refused_after_drain%d_returned' % k] = z3.Implies(z3.UGT(first, dl), ret == 1)
-            if prev_pos is not None:
-                claims[nm + '.program_order'] = z3.Implies(z3.And(prev_ok, ret == 0), z3.ULT(prev_pos, apos))
-            prev_pos, prev_ok = apos, ret == 0
-    return all_leaf, claims
-
-
-def run_instance(ctx, prog, name, n_senders, n_msgs, n_drainers, rounds, loop_bound, status0=2):
-    t0 = time.time()
-    trees, meta, interps = build_threads(prog, n_senders, n_msgs, n_drainers, loop_bound, status0)
-    for I in interps:
-        ctx.absorb(I)
-    order = list(range(len(trees)))
-    if ctx.seed:
-        import random
-        random.Random(ctx.seed).shuffle(order)
-    bmc = conc.BMC(mb.shared_objects(status0=status0, qcap=0), trees, rounds, order=order, no_spurious=(os.environ.get('VERIF_SPURIOUS', '0') != '1'))
-    premise, claims = oracle(bmc, trees, meta)
-    info = {'instance': name, 'threads': [tr.name for tr in trees], 'paths': [tr.paths for tr in trees], 'nodes': [len(tr.nodes) for tr in trees],
-            'event_depth': [tr.max_event_depth() for tr in trees], 'rounds': rounds, 'slots': bmc.S, 'cas_unroll': loop_bound, 'unfold_s': round(time.time() - t0, 2)}
-    ctx.extra.setdefault('instances', []).append(info)
-    trunc_free = z3.And([z3.Not(bmc.at_leaf_kind(t, 'trunc')) for t in range(len(trees))])
-    base = list(bmc.cons)   # after the oracle: lazily created ghost variables (execution flags / times) are defined in cons
-    # vacuity witnesses
-    w = ctx.witness(name + '.all_threads_can_finish', base + [premise, trunc_free], logic='QF_BV')
-    if n_drainers:
-        sends = [ident for m in meta if m['kind'] == 'sender' for ident in m['idents']]
-        # a send admitted *after* a drainer closed admission is impossible, but a send racing with drain (ok and err) must exist
-        ret0 = bmc.leaf_select(0, lambda leaf: z3.BitVecVal(leaf.data['send'], 4), z3.BitVecVal(15, 4))
-        ctx.witness(name + '.a_send_is_refused', base + [premise, ret0 == 1], logic='QF_BV')
-        ctx.witness(name + '.a_send_is_accepted', base + [premise, ret0 == 0], logic='QF_BV')
-        # marker emitted by a sender's ticket drop (the interesting hand-over)
-        sender_marker = [z3.And(bmc.executed[n], n.event.res['ok']) for t, m in enumerate(meta) if m['kind'] == 'sender' for n in mb.send_events([trees[t]], mb.MARKER)]
-        if sender_marker:
-            ctx.witness(name + '.marker_sent_by_last_ticket_holder', base + [premise, z3.Or(sender_marker)], logic='QF_BV')
-    # obligations: premise => claim, one query per claim group (conjunction), then per claim on failure
-    allc = z3.And(list(claims.values()))
-    t1 = time.time()
-    r, m = ctx.solve(base + [premise, trunc_free, z3.Not(allc)], logic='QF_BV')
-    dt = time.time() - t1
-    if r == 'unsat':
-        for cn in claims:
-            ctx.obligations.append({'name': '%s.%s' % (name, cn), 'group': 'C07.' + cn.split('.')[-1], 'status': 'proved', 'solver_s': round(dt / len(claims), 3)})
-        ctx.samples.append({'instance': info, 'claims': list(claims)[:12], 'verdict': 'unsat (no schedule within the bound violates any claim)'})
-    elif r == 'unknown':
-        ctx.inconclusive.append('solver unknown on instance %s: %s' % (name, m))
-    else:
-        bad = [cn for cn, c in claims.items() if z3.is_false(m.eval(c, model_completion=True))]
-        sched = bmc.schedule_from_model(m)
-        rec = {'name': '%s.%s' % (name, bad[0] if bad else 'claims'), 'group': 'C07', 'status': 'cex', 'solver_s': round(dt, 3), 'violated': bad,
-               'schedule': [(t, lbl) for (_, t, _, lbl, _) in sched]}
-        ctx.handle_cex(rec['name'], 'C07.' + (bad[0].split('.')[-1] if bad else 'claims'), m,
-                       lambda model: replay_schedule(name, n_senders, n_msgs, n_drainers, status0, sched, bad, trees, meta), rec)
-        ctx.obligations.append(rec)
-    # bound adequacy: can a CAS retry loop run out of unrollings?
-    r2, m2 = ctx.solve(base + [z3.Or([bmc.at_leaf_kind(t, 'trunc') for t in range(len(trees))])], timeout_ms=60000, logic='QF_BV')
-    info['truncated_leaf_reachable'] = r2
-    return info
-
-
-def replay_schedule(name, n_senders, n_msgs, n_drainers, status0, sched, bad, trees, meta):
-    import mailbox_replay
-    return mailbox_replay.replay('C07', n_senders, n_msgs, n_drainers, 0, status0, sched, bad)
+SEND = mb.SEND
+DRAIN = mb.DRAIN
 
 
 def run(ctx):
@@ -180,12 +32,23 @@ def run(ctx):
     ctx.assumptions += ['tokio unbounded mpsc: send fails returning the same value iff the receiver is closed/dropped, otherwise appends (FIFO)',
                         'atomics: each load/RMW/CAS is one atomic step; compare_exchange_weak may fail spuriously (free boolean)',
                         'user Message::box_message/from_boxed are opaque wrappers of the same message token (local actor, cannot fail)']
-    insts = [('s2x2_d1_r2', 2, 2, 1, 2, 4)] if quick else [('s2x2_d1_r3', 2, 2, 1, 3, 5), ('s2x1_d2_r3', 2, 1, 2, 3, 5), ('s3x1_d1_r2', 3, 1, 1, 2, 5)]
+    # name, senders, msgs per sender, drainers, rounds, CAS unroll, spurious weak-CAS failures explored
+    if quick:
+        insts = [('s2x1_d1_r2', 2, 1, 1, 2, 2, False), ('s1x1_d2_r2', 1, 1, 2, 2, 2, False), ('s1x2_d1_r2', 1, 2, 1, 2, 2, False)]
+    else:
+        insts = [('s2x1_d1_r2', 2, 1, 1, 2, 2, False), ('s1x1_d2_r2', 1, 1, 2, 2, 2, False), ('s1x2_d1_r2', 1, 2, 1, 2, 2, False),
+                 ('s2x1_d1_r3_u3', 2, 1, 1, 3, 3, False), ('s2x2_d1_r2', 2, 2, 1, 2, 2, False), ('s2x1_d2_r2', 2, 1, 2, 2, 2, False),
+                 ('s3x1_d1_r2', 3, 1, 1, 2, 2, False), ('s2x1_d1_r2_spurious', 2, 1, 1, 2, 3, True), ('s1x1_d2_r3_spurious', 1, 1, 2, 3, 3, True)]
     if os.environ.get('VERIF_C07_INST'):
         a = os.environ['VERIF_C07_INST'].split(',')
-        insts = [(os.environ['VERIF_C07_INST'], int(a[0]), int(a[1]), int(a[2]), int(a[3]), int(a[4]))]
-    for (name, ns, nm, nd, R, U) in insts:
-        run_instance(ctx, prog, name, ns, nm, nd, R, U)
+        insts = [(os.environ['VERIF_C07_INST'], int(a[0]), int(a[1]), int(a[2]), int(a[3]), int(a[4]), len(a) > 5 and a[5] == '1')]
+    ctx.bounds['instances'] = [dict(zip(('name', 'senders', 'msgs', 'drainers', 'rounds', 'cas_unroll', 'spurious'), i)) for i in insts]
+    ctx.parallel(run_instance_job, [i for i in insts])
+
+
+def run_instance_job(sub, name, ns, nm, nd, R, U, spurious):
+    prog, info = mb.load()
+    mb.run_instance(sub, 'C07', prog, name, ns, nm, nd, 0, R, U, spurious=spurious)
 
 
 def replay_file(path):
